@@ -179,3 +179,10 @@ def run(ctx):
              "a swept symbol must leave the table (hook). Non-trivial = a value came back; distinct by request text",
         trusted_extra=["that every production route ends in Heap::put / maybe_put of the spelling is observed "
                        "(exploration over routes), not proved"])
+
+
+# ROUND 8: the Ext laws are theorems for a table of real builtins (lib/props/procinv_util.py, Lemmas/ListExtC18.lean)
+import procinv_util as _pv8
+MODULE = _pv8.listext_module("C18")
+THEOREMS = THEOREMS + [t for t in _pv8.LISTEXT_LAWS + _pv8.LISTEXT["C18"] if t not in THEOREMS]
+META["note"] = META["note"] + _pv8.LISTEXT_NOTE
